@@ -43,8 +43,7 @@ def fn_span(src,name,impl_hint=None):
     return m.start(),pc,bo,bc
 def splice(src,contracts):
     for key,c in contracts.items():
-        hint=None;name=key
-        if '::' in key: hint,name=key.split('::'); hint='impl'+('' if hint=='' else '')  # simple
+        hint=None;name=c.get('name',key)
         s0,pc,bo,bc=fn_span(src,name,c.get('after'))
         body=src[bo:bc+1]
         # loops
